@@ -300,6 +300,21 @@ class ListNM(Hooks, NodeMixin, list):
         return "ListNM(%s)" % (self.name,)
 
 
+class TupleNM(Hooks, NodeMixin, tuple):
+    """A node that is also a (two-element) tuple, like ``class P(namedtuple("P", "x y"), NodeMixin)``: value equality and
+    hash, and the node unpacks wherever it is handed to a ``%`` format or a ``*`` call."""
+
+    def __new__(cls, name, key=0):
+        return tuple.__new__(cls, ("x", key))
+
+    def __init__(self, name, key=0):
+        self.name = name
+        self.key = key
+
+    def __repr__(self):
+        return "TupleNM(%s)" % (self.name,)
+
+
 class FalsyLM(Hooks, LightNodeMixin):
     """Always falsy, also as a parent that has children."""
 
@@ -369,7 +384,7 @@ class FalsyNode(Hooks, Node):
         return False
 
 
-FAMILIES = ("NM", "LM", "Node", "AnyNode", "MIX", "VALNM", "VALLM", "FALSY", "FALSYLM", "FALSYNMB", "FALSYANY", "FALSYNODE", "ITER", "LIST")
+FAMILIES = ("NM", "LM", "Node", "AnyNode", "MIX", "VALNM", "VALLM", "FALSY", "FALSYLM", "FALSYNMB", "FALSYANY", "FALSYNODE", "ITER", "LIST", "TUPLE")
 LOCKSTEP_PAIRS = {"NM": ("NM", "LM"), "VALNM": ("VALNM", "VALLM"), "FALSYNMB": ("FALSYNMB", "FALSYLM")}
 
 
@@ -394,6 +409,8 @@ def make_nodes(family, k):
         return [IterNM("n%d" % i, i % 2) for i in range(k)]
     if family == "LIST":
         return [ListNM("n%d" % i, i % 2) for i in range(k)]
+    if family == "TUPLE":
+        return [TupleNM("n%d" % i, i % 2) for i in range(k)]
     if family == "FALSYLM":
         return [FalsyLM("n%d" % i, i % 2) for i in range(k)]
     if family == "FALSYNMB":
